@@ -21,7 +21,7 @@ inline pw::Node getNode(const std::vector<std::string> &toks, size_t &i) {
   std::vector<std::string> f; { std::string t = toks.at(i++); size_t a = 0; while (true) { size_t b = t.find('|', a); f.push_back(t.substr(a, b == std::string::npos ? b : b - a)); if (b == std::string::npos) break; a = b + 1; } }
   Bytes nm = pbt::unhex(f.at(0)); n.name.assign(nm.begin(), nm.end());
   n.rep = std::stoi(f.at(1)); n.group = f.at(2) == "1"; n.type = std::stoi(f.at(3)); n.type_length = std::stoi(f.at(4)); n.lt.kind = std::stoi(f.at(5));
-  if (n.lt.kind == 5) { n.lt.scale = 2; n.lt.precision = 9; } if (n.lt.kind == 10) { n.lt.bit_width = 32; n.lt.is_signed = true; }
+  if (n.lt.kind == 5) { n.lt.scale = 2; n.lt.precision = 9; } if (n.lt.kind == 10) { n.lt.bit_width = n.type == pq::INT64 ? 64 : 32; n.lt.is_signed = true; }
   size_t nk = (size_t)std::stoul(f.at(6));
   for (size_t k = 0; k < nk; k++) n.kids.push_back(getNode(toks, i));
   return n;
@@ -87,9 +87,11 @@ struct Opts {
   bool layouts = true;       // dictionary offset absent, wider index width, unused dictionary entries, level run plans
   bool crc = true;
   int max_cols = 5, max_rgs = 3, max_rows = 40, max_pages = 6, min_cols = 1;
+  bool logical_types = false;   // annotate leaves with members of the LogicalType union other than STRING
   std::vector<int> types = {pq::BOOLEAN, pq::INT32, pq::INT64, pq::INT96, pq::FLOAT, pq::DOUBLE, pq::BYTE_ARRAY, pq::FIXED_LEN_BYTE_ARRAY};
   bool all_required = false;
   bool big = false;          // occasionally thousands of rows
+  bool long_period = false;  // rarely a chunk of ~10-20 thousand fixed-width values that repeat with a period of 32..64 KiB in one page (long-distance back references of the codecs)
 };
 
 inline rc::Gen<Bytes> valueGen(int type, int tl) {
@@ -139,6 +141,14 @@ inline pw::Node genSchema(const Opts &o) {
       if (n.type == pq::INT96 && !o.int96) n.type = pq::INT64;
       if (n.type == pq::FIXED_LEN_BYTE_ARRAY) n.type_length = *rc::gen::weightedOneOf<int>({{5, irange(1, 20)}, {1, rc::gen::element(33, 64)}});
       if (n.type == pq::BYTE_ARRAY && *irange(0, 3) == 0) { n.lt.kind = 1; n.converted = 0; }
+      // every member of the LogicalType union on a physical type it may annotate (kind = union field id)
+      else if (o.logical_types && *irange(0, 3) == 0) {
+        if (n.type == pq::BYTE_ARRAY) n.lt.kind = *rc::gen::element(4, 12, 13, 11);
+        else if (n.type == pq::INT32) n.lt.kind = *rc::gen::element(6, 7, 10, 5, 11);
+        else if (n.type == pq::INT64) n.lt.kind = *rc::gen::element(8, 7, 10, 5, 11);
+        else if (n.type == pq::FIXED_LEN_BYTE_ARRAY) { n.lt.kind = *rc::gen::element(14, 15, 5); n.type_length = n.lt.kind == 14 ? 16 : n.lt.kind == 15 ? 2 : 9; }
+        if (n.lt.kind == 5) { n.lt.scale = 2; n.lt.precision = 9; } if (n.lt.kind == 10) { n.lt.bit_width = n.type == pq::INT64 ? 64 : 32; n.lt.is_signed = true; }
+      }
     }
     return n;
   };
@@ -174,6 +184,7 @@ inline void genLevels(const pw::Leaf &lf, size_t rows, std::vector<int16_t> &def
   }
 }
 
+inline uint64_t dxs2(uint64_t &s) { s ^= s << 13; s ^= s >> 7; s ^= s << 17; return s; }
 inline pw::ChunkSpec genChunk(const Opts &o, const pw::Leaf &lf, size_t rows, int codec) {
   pw::ChunkSpec cs;
   genLevels(lf, rows, cs.def, cs.rep);
@@ -182,7 +193,14 @@ inline pw::ChunkSpec genChunk(const Opts &o, const pw::Leaf &lf, size_t rows, in
   size_t nn = 0;
   for (size_t i = 0; i < cs.n; i++) if (!lf.max_def || cs.def[i] == lf.max_def) nn++;
   bool pool = *irange(0, 2) == 0 || (o.dicts && *irange(0, 1));
-  if (pool) {
+  size_t fw = lf.type == pq::INT32 || lf.type == pq::FLOAT ? 4 : lf.type == pq::INT64 || lf.type == pq::DOUBLE ? 8 : lf.type == pq::INT96 ? 12 : 0;
+  bool periodic = o.long_period && rows >= 9000 && fw != 0;
+  if (periodic) {
+    size_t period = (size_t)*irange(33000, 65000) / fw;   // bytes between repetitions: beyond a 32 KiB window, inside a 64 KiB one
+    std::vector<Bytes> base; uint64_t sd = (uint64_t)*irange(1, 1 << 30) * 0x9E3779B97F4A7C15ull | 1;
+    for (size_t i = 0; i < period; i++) { Bytes v(fw); for (auto &x : v) x = (uint8_t)(dxs2(sd) >> 24); base.push_back(v); }
+    for (size_t i = 0; i < nn; i++) cs.values.push_back(base[i % period]);
+  } else if (pool) {
     int k = *rc::gen::weightedOneOf<int>({{4, irange(1, 6)}, {2, irange(7, 40)}, {1, irange(250, 300)}});
     auto pv = *rc::gen::container<std::vector<Bytes>>((size_t)k, valueGen(lf.type, lf.type_length));
     auto idx = *gen::anySeq(16);
@@ -191,7 +209,7 @@ inline pw::ChunkSpec genChunk(const Opts &o, const pw::Leaf &lf, size_t rows, in
   // pages: split points at record boundaries
   std::vector<size_t> bounds;
   for (size_t i = 1; i < cs.n; i++) if (!lf.max_rep || cs.rep[i] == 0) bounds.push_back(i);
-  int np = cs.n == 0 ? 0 : o.max_pages < 2 ? 1 : *rc::gen::weightedOneOf<int>({{3, rc::gen::just(1)}, {4, irange(2, o.max_pages)}});
+  int np = cs.n == 0 ? 0 : (o.max_pages < 2 || periodic) ? 1 : *rc::gen::weightedOneOf<int>({{3, rc::gen::just(1)}, {4, irange(2, o.max_pages)}});
   std::set<size_t> cuts;
   for (int i = 1; i < np && !bounds.empty(); i++) cuts.insert(bounds[(size_t)*irange(0, (int)bounds.size() - 1)]);
   cs.dict = o.dicts && lf.type != pq::BOOLEAN && *irange(0, 2) != 0;
@@ -228,6 +246,7 @@ inline rc::Gen<pw::FileSpec> specGen(const Opts &o) {
       size_t rows = o.big ? (size_t)*rc::gen::weightedOneOf<int>({{1, rc::gen::just(0)}, {6, irange(1, o.max_rows)}, {2, irange(1000, 3000)}})
                           : (size_t)*rc::gen::weightedOneOf<int>({{1, rc::gen::just(0)}, {6, irange(1, o.max_rows)}});
       if (rows == 0 && g == 0 && nrg == 1 && *irange(0, 3) != 0) rows = 1 + (size_t)*irange(0, 5);
+      if (o.long_period && g == 0 && *irange(0, 39) == 0) rows = (size_t)*irange(9000, 20000);
       fs.rg_rows.push_back((int64_t)rows);
       std::vector<pw::ChunkSpec> rg;
       for (auto &lf : lv) rg.push_back(genChunk(o, lf, rows, codecs[(size_t)*irange(0, (int)codecs.size() - 1)]));
